@@ -60,6 +60,8 @@ def ode_case(draw):
 
 
 def prop_ode(case):
+    case = dict(case)
+    case.pop('nodelist_perm', None)     # the explicit-nodelist variant is generated below from the bijection, not by the case generator
     e = ac.ENTRIES[case['entry']]
     ic = ac.make_ic(case)
     if not ic.regular_domain() or (e.singular and e.singular(ic)):
@@ -212,7 +214,7 @@ def run_table_sim(case):
 
         def trans(u, v, d):
             k = count[u] - 1
-            return [x for x in delays[(u, v)][k % len(delays[(u, v)])] if x < d]
+            return [x for x in delays[(u, v)][k % len(delays[(u, v)])] if x < d or case.get('late')]
         out = EoN.fast_nonMarkov_SIS(oracles.build_graph(case['gc']), trans_time_fxn=trans, rec_time_fxn=rec,
                                      initial_infecteds=[oracles.tolabel(u) for u in case['I0']], tmin=case['tmin'], tmax=case['tmax'],
                                      return_full_data=True)
@@ -246,7 +248,7 @@ def prop_sim(case):
         nodes, adj = oracles.adjacency(case['gc'])
         pairs = [(u, v) for u in nodes for v in adj[u]]
         _, coincide = c13.reference(nodes, adj, dict(zip(nodes, case['dur'])), dict(zip(pairs, case['delays'])),
-                                    [oracles.tolabel(u) for u in case['I0']], case['tmin'], case['tmax'])
+                                    [oracles.tolabel(u) for u in case['I0']], case['tmin'], case['tmax'], late=bool(case.get('late')))
         if coincide:
             return Result([], classes=['discarded-coincidence'])
     c2, m = transport(case)
